@@ -64,13 +64,18 @@ func runForkShared(p *core.Program, r *core.Report, rule string) {
 	if !r.Anchor(rule, "a pointer field of Frame that Fork shares (defers)", len(names) >= 1) {
 		return
 	}
-	// rootField: addr is reached from a load of Frame.<shared field>
+	// rootField: addr is reached from a load of Frame.<shared field>, directly
+	// or through a parameter that receives such a value at a call site
+	// (fm.defers.push(f): the receiver of push is the shared list)
+	rootedParam := map[*ssa.Parameter]string{}
 	var rootField func(v ssa.Value, depth int) string
 	rootField = func(v ssa.Value, depth int) string {
 		if depth > 6 {
 			return ""
 		}
 		switch x := v.(type) {
+		case *ssa.Parameter:
+			return rootedParam[x]
 		case *ssa.FieldAddr:
 			return rootField(x.X, depth+1)
 		case *ssa.IndexAddr:
@@ -92,6 +97,30 @@ func runForkShared(p *core.Program, r *core.Report, rule string) {
 			}
 		}
 		return ""
+	}
+	for changed, round := true, 0; changed && round < 4; round++ {
+		changed = false
+		for _, fn := range p.FnsInPkg(pkgEval) {
+			core.Instrs(fn, func(ins ssa.Instruction) {
+				c, ok := ins.(ssa.CallInstruction)
+				if !ok {
+					return
+				}
+				callee := c.Common().StaticCallee()
+				if callee == nil || callee.Blocks == nil || core.PkgPathOf(callee) != pkgEval {
+					return
+				}
+				for i, a := range c.Common().Args {
+					if i >= len(callee.Params) {
+						break
+					}
+					if f := rootField(a, 0); f != "" && rootedParam[callee.Params[i]] == "" {
+						rootedParam[callee.Params[i]] = f
+						changed = true
+					}
+				}
+			})
+		}
 	}
 	isLock := func(ins ssa.Instruction, names ...string) bool {
 		c, ok := ins.(*ssa.Call)
